@@ -342,6 +342,9 @@ def check(tier: str) -> Result:
     n_cs = wiring.class_state_writes(res, tree, "C02.R6", lambda ci: ci.module.name.startswith("jumanji.environments.") and not ci.module.name.endswith(".types") or ci.module.name in ("jumanji.wrappers", "jumanji.specs"))
     from . import shape_rules
     n_shapes = shape_rules.state_shape_obligations(res, tree, "C02.R5")
+    # ---- R9: batched execution equals per-instance execution in the wrappers too (borrowed from C14)
+    from .common import borrow
+    n_vm = borrow(res, "c14", {"C14.R1": "C02.R9", "C14.R2.R1": "C02.R9"})
     res.analysed = {"state_leaf_shapes_compared": n_shapes, "environments": len(analyses(tree)), "closure_functions": tot_funcs, "call_sites_scanned": tot_calls,
                     "in_place_writes": tot_events, "python_tests": tot_branches}
     if tot_funcs < 400 or tot_events < 25:
